@@ -174,4 +174,71 @@ func extractC16(f *facts) {
 	f.def("c16HTTPLineIndices", "List Nat", leanNatList(lineIdx))
 	f.def("c16HTTPLineSliceLows", "List Nat", leanNatList(lineSliceLows))
 	f.def("c16HTTPBodyGuard", "List Nat", leanBytes(bodyGuard))
+	// --- lock discipline of the two stream targeters ---
+	// JSON: statements between rd.Lock() and rd.Unlock() in the closure; number of return statements among them
+	// HTTP: the closure starts with mu.Lock(); defer mu.Unlock()
+	jsonLockOrder := []string{}
+	jsonReturnsLocked := -1
+	if fd := funcDecl(tgt, "", "NewJSONTargeter"); fd != nil {
+		ast.Inspect(fd, func(n ast.Node) bool {
+			fl, ok := n.(*ast.FuncLit)
+			if !ok || jsonReturnsLocked >= 0 {
+				return true
+			}
+			locked := false
+			cnt := 0
+			for _, st := range fl.Body.List {
+				src := c19Src(f, st)
+				switch {
+				case src == "rd.Lock()":
+					locked = true
+					jsonLockOrder = append(jsonLockOrder, src)
+				case src == "rd.Unlock()":
+					locked = false
+					jsonLockOrder = append(jsonLockOrder, src)
+				case locked:
+					jsonLockOrder = append(jsonLockOrder, "<stmt>")
+					ast.Inspect(st, func(m ast.Node) bool {
+						if _, ok := m.(*ast.ReturnStmt); ok {
+							cnt++
+						}
+						if _, ok := m.(*ast.FuncLit); ok {
+							return false
+						}
+						return true
+					})
+				}
+			}
+			if len(jsonLockOrder) > 0 {
+				jsonReturnsLocked = cnt
+				if locked {
+					jsonReturnsLocked = 1000 // never unlocked at the top level
+				}
+			}
+			return true
+		})
+	}
+	if jsonReturnsLocked < 0 {
+		jsonReturnsLocked = 999
+	}
+	f.def("c16JSONTargeterLockOrder", "List (List Nat)", leanBytesList(jsonLockOrder))
+	f.def("c16JSONTargeterReturnsWhileLocked", "Nat", strconv.Itoa(jsonReturnsLocked))
+	httpHead := []string{}
+	if fd := funcDecl(tgt, "", "NewHTTPTargeter"); fd != nil {
+		done := false
+		ast.Inspect(fd, func(n ast.Node) bool {
+			fl, ok := n.(*ast.FuncLit)
+			if !ok || done {
+				return true
+			}
+			done = true
+			for i, st := range fl.Body.List {
+				if i < 2 {
+					httpHead = append(httpHead, c19Src(f, st))
+				}
+			}
+			return false
+		})
+	}
+	f.def("c16HTTPTargeterHead", "List (List Nat)", leanBytesList(httpHead))
 }
